@@ -31,7 +31,7 @@ ASSUMPTIONS = [
     "str subclasses and objects with exotic __eq__ are not driven (statement silent)",
 ]
 REQUIRED = {"all": ["accepted_valid", "accepted_with_whitespace", "accepted_lowercase", "rejected_invalid",
-                    "rejected_invalid_with_whitespace", "rejected_blank", "rejected_non_string", "battery_compared", "lookalike_code_points", "words_wrapped_in_a_pair_of_foreign_characters", "escape_sequences_and_foreign_characters_after_line_breaks"]}
+                    "rejected_invalid_with_whitespace", "rejected_blank", "rejected_non_string", "battery_compared", "lookalike_code_points", "words_wrapped_in_a_pair_of_foreign_characters", "escape_sequences_and_foreign_characters_after_line_breaks", "texts_with_more_than_32_whitespace_runs"]}
 NVALID = {"quick": 1500, "thorough": 15000}
 NBASE = {"quick": 2, "thorough": 6}
 SPACES = [chr(i) for i in list(range(0, 0x3100)) if chr(i).isspace()]
@@ -69,7 +69,7 @@ def lookalike_code_points():
 
 NON_STRINGS = ["None", "0", "1", "1.5", "True", "False", "bytes", "bytearray", "list", "tuple", "dict", "object", "set",
                "list_empty", "nan", "inf", "np_nan", "np_inf32", "decimal_nan", "np_false", "str_method_object", "backend_sequence",
-               "letters_list", "complex", "userstring", "bio_seq", "bio_mutableseq", "bytes_like_memoryview", "pathlib_path", "str_iterator"]
+               "letters_list", "complex", "frontend_object", "userstring", "bio_seq", "bio_mutableseq", "bytes_like_memoryview", "pathlib_path", "str_iterator"]
 
 
 def mk_nonstring(tag):
@@ -105,6 +105,9 @@ def _more_nonstrings(tag):
         return list("ACDEF")
     if tag == "complex":
         return 1j
+    if tag == "frontend_object":
+        from lcverif import sut
+        return sut.load()["SP"]("ACDEFGHIK")
     # objects that behave like text (upper(), iteration over one-letter strings) without being str
     if tag == "userstring":
         import collections
@@ -184,6 +187,11 @@ def cases(tier, seed):
                        ('"', "'"), ("*", "*"), ("-", "-"), (".", "."), ("|", "|"), ("b'", "'"), ("'", "',"), ("['", "']")]:
             for s in (lq + base + rq, " " + lq + base + rq + "\n", lq + base.lower() + rq, lq + " " + base + " " + rq):
                 yield {"s": s, "wrapped": 1}
+    # text broken into many pieces: dozens to hundreds of separate whitespace runs (blocks of ten, one residue per line)
+    long_word = gen.rand_seq(rng, "uniform", lo=400, hi=400)
+    for s in (" ".join(long_word[i:i + 10] for i in range(0, 400, 10)), "\n".join(long_word[:120]), "\t \n".join(long_word[:40]),
+              " ".join(long_word[:33]), " ".join(long_word[:34]), "\r\n".join(long_word[i:i + 3] for i in range(0, 300, 3))):
+        yield {"s": s, "runs": 1}
     # escape sequences of other formats inside (or instead of parts of) a valid word: URL / quoted-printable / HTML / C escapes
     # are several foreign characters, not blanks or residues
     for base in bases[:2] + ["MKD"]:
@@ -293,6 +301,8 @@ def judge(case, rep, S):
     valid = len(n) > 0 and all(c in M.AA for c in n)
     if case.get("lookalike"):
         rep.cnt("lookalike_code_points")
+    if case.get("runs"):
+        rep.cnt("texts_with_more_than_32_whitespace_runs")
     if case.get("escape"):
         rep.cnt("escape_sequences_and_foreign_characters_after_line_breaks")
     if case.get("wrapped"):
